@@ -133,7 +133,7 @@ class PG:
             names = names + [rng.choice(["task_level", "task_uuid", "timestamp"])]
         for k in names:
             r = rng.random()
-            v = {"n": rng.randint(0, 9)} if r < 0.5 else ({"s": rng.choice(["a", "b c", "é"])} if r < 0.8 else {"o": rng.randint(0, 3)})
+            v = {"n": rng.randint(0, 9)} if r < 0.5 else ({"s": rng.choice(["a", "b c", "é"])} if r < 0.8 else {"o": rng.randint(0, self.prof.get("obj_max", 3))})
             out.append([k, v])
         return out
 
@@ -162,12 +162,22 @@ class PG:
         rng = self.rng
         f = self.fields()
         sers = None
+        seen = self.__dict__.setdefault("typed_msgs", [])
+        if seen and rng.random() < self.prof["p_typed"] * 0.4:
+            # log through a message type that was used before (one MessageType object, many messages - the usual way to
+            # use one), often with the very same values
+            old = rng.choice(seen)
+            f = [[k, (v if rng.random() < 0.6 else {"n": rng.randint(0, 9)})] for k, v in old["fields"]]
+            return dict(mtype=old["mtype"], fields=f, sers=old["sers"])
         if rng.random() < self.prof["p_typed"]:
             f = [kv for kv in f if kv[0] not in ("task_level", "task_uuid", "timestamp")]
             sers = [[k, self.sid()] for k, _ in f]
             if rng.random() < self.prof["p_missing_field"]:
                 sers.append(["missing", self.sid()])
-        return dict(mtype=rng.choice(["app:m1", "app:m2"]), fields=f, sers=sers)
+        ms = dict(mtype=rng.choice(["app:m1", "app:m2"]), fields=f, sers=sers)
+        if sers is not None:
+            seen.append(ms)
+        return ms
 
     def block(self, depth, st):
         """st: dict(handles=[(x, entered?)...], ids=[y...], in_handler=bool, in_action=bool, succ_keys=...)"""
